@@ -110,13 +110,12 @@ def gen_case(rng, odd):
     cur = [0]
 
     def ref():
-        # mostly forward (sharing without cycles); sometimes anywhere (cycles, also through the root)
-        if rng.random() < 0.006:
-            return dict(t="ref", n=0)
+        # mostly forward (sharing without cycles); sometimes anywhere (cycles) - never the root: since 0cc66af a
+        # task that has not been submitted is refused as a value
         fwd = [t for t in targets if t > cur[0] or nodes[t]["sealed"] or nodes[t]["cls"] == "Out"]
         if rng.random() < 0.985:
             return dict(t="ref", n=rng.choice(fwd)) if fwd else dict(t="none")
-        return dict(t="ref", n=rng.choice(targets))
+        return dict(t="ref", n=rng.choice(targets)) if targets != [0] else dict(t="none")
 
     def key():
         if odd and rng.random() < 0.3:
@@ -205,7 +204,7 @@ def gen_case(rng, odd):
             for _ in range(rng.choice([0, 1, 1, 2])):
                 lst["v"].insert(rng.choice([0, 0, rng.randrange(len(lst["v"]) + 1)]), dict(t="ref", n=rng.choice(flagged)))
         if not lists and "l" in SHAPE[nodes[0]["cls"]] and not any(k == "l" for k, _ in nodes[0]["fields"]):
-            others = [t for t in targets if not nodes[t].get("meta")] or [flagged[0]]
+            others = [t for t in targets if t != 0 and not nodes[t].get("meta")] or [flagged[0]]
             nodes[0]["fields"].append(["l", dict(t="list", v=[dict(t="ref", n=rng.choice(flagged)),
                                                                dict(t="ref", n=rng.choice(others))])])
             nodes[0]["fields"].sort(key=lambda kv: DECLS[nodes[0]["cls"]].index(kv[0]))
